@@ -208,3 +208,49 @@ func H_Search_Template(p []int) {
 	vAssert(count == want, "C04.template-count")
 	vCover("template.done")
 }
+
+// H_Search_MovedTemplate: a concrete 40-point line whose root quadtree node splits, moved by a delta so large that
+// the additions round (concrete float arithmetic is performed in IEEE doubles by the engine): the moved line must
+// still answer every query rectangle as a brute-force filter over its own segments. params: kind, delta exponent
+func H_Search_MovedTemplate(p []int) {
+	kind, e := p[0], p[1]
+	n := 40
+	pts := make([]Point, n)
+	pts[0] = Point{0, 0}
+	// extent [0,5.4]^2 (mid line 2.7); the cluster at x in {2.0, 2.6} is filed in the lower-left quadrant.
+	// After a move by 2^52 the mid line rounds to 2 while x = 2.6 rounds to 3.
+	pts[1] = Point{5.4, 5.4}
+	for i := 2; i < n; i++ {
+		x := 2.6
+		if i%2 == 1 {
+			x = 2.0
+		}
+		pts[i] = Point{x, 0.5 + 0.02*float64(i)}
+	}
+	d := 1.0
+	for i := 0; i < e; i++ {
+		d *= 2
+	}
+	line := NewLine(pts, &IndexOptions{Kind: vKind(kind), MinPoints: 8})
+	m := line.Move(d, d)
+	rect := vRectAny("q")
+	ns := m.NumSegments()
+	count := 0
+	bad := false
+	m.Search(rect, func(seg Segment, idx int) bool {
+		if idx < 0 || idx >= ns || seg != m.SegmentAt(idx) {
+			bad = true
+		}
+		count++
+		return true
+	})
+	want := 0
+	for i := 0; i < ns; i++ {
+		if m.SegmentAt(i).Rect().IntersectsRect(rect) {
+			want++
+		}
+	}
+	vAssert(!bad, "C04.moved-template-index-and-segment")
+	vAssert(count == want, "C04.moved-template-count")
+	vCover("movedtemplate.done")
+}
